@@ -285,14 +285,17 @@ pub fn check_c07(prog: &NetProgram, res: &NetResult, info: &mut RunInfo) {
         };
         let mut unbusy = |busy_until: &mut Option<u64>, queue: &mut VecDeque<(u32, usize)>, acc: &mut usize, deliver: &mut Vec<(u32, u64, u64)>| {
             let at = busy_until.take().unwrap();
-            if let Some((uid, len)) = queue.pop_front() {
+            // queued messages start transmission in FIFO order the instant the channel is idle; a transmission that
+            // takes no measurable time leaves the channel idle, so the next one starts at the same instant
+            while let Some((uid, len)) = queue.pop_front() {
                 *acc -= len;
                 let b = busy_ns(len, ch.bitrate);
-                if b > 0 {
-                    *busy_until = Some(at + b);
-                }
                 let lo = at + b + ch.latency_ns;
                 deliver.push((uid, lo, lo + ch.jitter_ns));
+                if b > 0 {
+                    *busy_until = Some(at + b);
+                    break;
+                }
             }
         };
         for o in offers {
